@@ -95,6 +95,7 @@ def plan_C20(tier):
         "backends": ["c", "py"],
         "subs": [
             {"name": "schedules", "cfg": {}, "runs": n, "batch": 25},
+            {"name": "preemption_sweep", "cfg": {"sweep": True, "sweep_cap": scale(tier, 40, 150)}, "runs": scale(tier, 60, 6000), "batch": 2, "weight": scale(tier, 8.0, 3.0)},
         ] + ([{"name": "many_threads", "cfg": {"force": {"nthreads": 5, "ops_per_thread": 12, "long_rate": 0.3, "repeat_rate": 0.25}},
                "runs": n // 10, "batch": 10}] if tier == "thorough" else []),
         "budget_s": scale(tier, 50, 1500),
@@ -107,7 +108,9 @@ def evidence_C20(agg, tier):
         "rule": ("one evaluation = one simulated run: 2-4 real threads, each a seeded program of 1-10 operations over a shared pool of 2-6 URL "
                  "objects (parser-built with pre-filled memo, and re-derived/unpickled with empty memo) and shared strings, optionally one "
                  "operator thread issuing cache_clear()/cache_configure(); a baton scheduler pre-empts at sys.monitoring INSTRUCTION or LINE "
-                 "events of yarl's own code under a seeded policy (random walk, store-biased, PCT with 1-3 priority change points). "
+                 "events of yarl's own code under a seeded policy (random walk, store-biased, PCT with 1-3 priority change points); a "
+                 "'preemption_sweep' sub-batch instead takes tiny two-thread programs and executes every single-pre-emption schedule of each "
+                 "(sampled above a cap). "
                  "distinct_nontrivial = distinct schedule digests (hash of the (thread, own-step, target, code, offset) switch sequence) among "
                  "runs with at least one switch taken while another thread was parked in the middle of an operation, or inside "
                  "cache_clear/cache_configure."),
@@ -119,6 +122,7 @@ def evidence_C20(agg, tier):
         },
         "probes": {k[len("probe_"):]: v for k, v in sorted(c.items()) if k.startswith("probe_")},
         "policies": {k: v for k, v in sorted(c.items()) if k.startswith(("policy_", "granularity_", "threads_"))},
+        "preemption_sweep": {k: v for k, v in sorted(c.items()) if k.startswith("sweep_")},
         "scheduler_steps": c.get("probe_steps", 0),
         "ops_executed": c.get("ops", 0),
         "diffs_attributed_to_C08": c.get("diffs_attributed_to_history_dependence_C08", 0),
